@@ -272,6 +272,8 @@ def run_monitor(pid, ctx, blocks, trace):
             f(ctx, k, sc, tr, stats)
     if pid == "C12":
         finalize_C12(ctx, stats)
+    if pid == "C05":
+        pairs_C05(ctx, blocks, trace, stats)
     stats.pop("_testers", None)
     stats.pop("_decisions", None)
     return stats
@@ -838,3 +840,27 @@ def mon_C16(ctx, k, sc, tr, stats):
 
 
 MONITORS.update({"C04": mon_C04, "C05": mon_C05, "C09": mon_C09, "C10": mon_C10, "C11": mon_C11, "C12": mon_C12, "C16": mon_C16, "C17": mon_C17})
+
+
+def pairs_C05(ctx, blocks, trace, stats):
+    """SEI with latency 0 against SI, same seed: identical trajectories (state at
+    the end of every step), implementation against implementation."""
+    for k in range(len(blocks) - 1):
+        if "\npair L0_SEI\n" not in blocks[k] or "\npair L0_SI\n" not in blocks[k + 1]:
+            continue
+        a, b = trace.get(k), trace.get(k + 1)
+        if a is None or b is None:
+            continue
+        stats["L0_pairs"] = stats.get("L0_pairs", 0) + 1
+        ea = [(s, st) for (s, tag, i, st) in a["snaps"] if tag == "end"]
+        eb = [(s, st) for (s, tag, i, st) in b["snaps"] if tag == "end"]
+        if (a["err"] is None) != (b["err"] is None) or len(ea) != len(eb):
+            ctx.violation("C05.L0_vs_SI.run_length", "SEI(L=0) ran %d steps (error %s), SI ran %d (error %s)" % (len(ea), a["err"], len(eb), b["err"]), blocks[k] + blocks[k + 1])
+            return
+        for (s, x), (_, y) in zip(ea, eb):
+            for h in range(len(x["hosts"])):
+                for i, (c, d) in enumerate(zip(x["hosts"][h], y["hosts"][h])):
+                    stats["L0_cells_compared"] = stats.get("L0_cells_compared", 0) + 1
+                    if (c["S"], c["I"], c["M"], c["R"], c["D"], c["TH"]) != (d["S"], d["I"], d["M"], d["R"], d["D"], d["TH"]) or any(c["E"]):
+                        ctx.violation("C05.L0_vs_SI.trajectory", "step %d host %d cell %d: SEI(L=0) %s, SI %s" % (s, h, i, fmt_cell(c), fmt_cell(d)), blocks[k] + blocks[k + 1])
+                        return
